@@ -213,6 +213,14 @@ C09_IgnoreStale ==
           /\ Post.usnap = Pre.usnap /\ Post.uents = Pre.uents /\ Post.uoff = Pre.uoff
           \* "at most the commit index is fast-forwarded" (a message of a stale term is ignored altogether)
           /\ Post.commit \in (IF stale THEN {Pre.commit} ELSE {Pre.commit, Max2(Pre.commit, s.index)})
+\* accepting (or fast-forwarding over) a snapshot never makes the node consider committed an entry
+\* other than the one first committed at that index: no fork
+C09_NoFork ==
+  IsSnapDeliver =>
+    /\ \A k \in FirstIndex(Post, PostD)..Post.commit :
+         (k \in DOMAIN hist.gc /\ HasIndex(Post, PostD, k)) => Key(EntryAt(Post, PostD, k)) = hist.gc[k].key
+    /\ LET b == BaseIndex(Post, PostD) IN
+         (b \in DOMAIN hist.gc) => hist.gc[b].key.term = BaseTerm(Post, PostD)
 C09_SnapPrefixCommitted ==
   ActUp => \A k \in DOMAIN NewMsgs :
     NewMsgs[k].type = "Snap" =>
@@ -425,7 +433,7 @@ AllInvariants ==
   /\ C06_CommitWithinLog /\ C06_LeaderCommitBacked /\ C06_FollowerCommit
   /\ C07_DurableMono /\ C07_ExposedMono /\ C07_VolatileMono /\ C07_RestartFromDisk /\ C07_NoActBelowStart
   /\ C08_Contiguous /\ C08_WithinCommit /\ C08_StableOnlyAsync /\ C08_NotDuringSnap /\ C08_SnapshotForward
-  /\ C09_NoRollback /\ C09_ExactBase /\ C09_IgnoreStale /\ C09_SnapPrefixCommitted
+  /\ C09_NoRollback /\ C09_ExactBase /\ C09_IgnoreStale /\ C09_NoFork /\ C09_SnapPrefixCommitted
   /\ C10_ConfigIsFold /\ C10_OnePending /\ C10_NoCampaignUnapplied /\ C10_AutoLeave
   /\ C11_ReadIndexFresh /\ C11_ServedByRealLeader
   /\ C14_NoPanic
